@@ -23,6 +23,8 @@ def run(P, R, L):
     R.clause("ROLE-5", "VersionBuilder: levels are ordered by (smallest key, file number); the merge emits the smaller file first; deleted files are dropped; "
              "the edit's deletions and additions are accumulated per level")
     K.role5_version_builder(P, R, L)
+    R.clause("OWN-13", "a version edit's added-file list is only changed by add_file and its deleted-file list only by remove_file: a trivial move deletes and adds the same file number in one edit")
+    K.own13_edit_lists(P, R, L)
     R.clause("PAIR-12", "the (file, level) pairs that drive seek-triggered compactions are written together (a stale level makes a trivial move list the file at two levels)")
     K.pair12_file_level_pairs(P, R, L)
     R.clause("OWN-8", "file numbers are unique: who writes the counter, and in which direction")
